@@ -18,8 +18,8 @@ from ..minimise import list_candidates
 ID = "C16"
 LEVEL = "exploration"
 TIERS = {
-    "quick": {"runs": 2500, "wall_cap": 120, "timeout": 90, "dups": 16},
-    "thorough": {"runs": 60000, "wall_cap": 1700, "timeout": 90, "dups": 64},
+    "quick": {"runs": 2500, "wall_cap": 120, "timeout": 300, "dups": 16},
+    "thorough": {"runs": 60000, "wall_cap": 1700, "timeout": 300, "dups": 64},
 }
 RULE = ("Each run is a seeded history (3-25 ops) of set_phosphosites (single int / list / tuple of positions drawn from valid S/T/Y, "
         "valid non-S/T/Y, 0, negatives, N+1, N+k, huge, duplicates), clear_phosphosites and the observers (get_phosphosites, "
